@@ -296,6 +296,7 @@ let handle (i : string list) (o : string list) =
       else if prop = "c12" then begin
         if not (p_C12_wire evs_wire) then Some "P_C12_wire"
         else if not (p_C12_close_flag evs_wire) then Some "P_C12_close_flag"
+        else if not (p_C08_fdt_close_flag evs_wire) then Some "P_C08_fdt_close_flag"
         else begin
           (* counter check after every op: objects state = fold of the trace prefix *)
           let bad = List.exists (fun (plen, view) ->
